@@ -1907,6 +1907,50 @@ StylesheetExecutionContextDefault::reset()
 
 
 
+#if defined(APACHE_XALAN_C_VERIF)
+void
+StylesheetExecutionContextDefault::verifSnapshot(XalanVector<XalanSize_t>&  theSizes) const
+{
+    theSizes.push_back(m_elementRecursionStack.size());
+    theSizes.push_back(m_formatterListeners.size());
+    theSizes.push_back(m_printWriters.size());
+    theSizes.push_back(m_outputStreams.size());
+    theSizes.push_back(m_paramsVector.size());
+    theSizes.push_back(m_keyTables.size());
+    theSizes.push_back(m_currentTemplateStack.size());
+    theSizes.push_back(m_copyTextNodesOnlyStack.size());
+    theSizes.push_back(m_modeStack.size());
+    theSizes.push_back(m_currentIndexStack.size());
+    theSizes.push_back(m_mode == 0 ? 0 : 1);
+    theSizes.push_back(m_rootDocument == 0 ? 0 : 1);
+    theSizes.push_back(m_stylesheetRoot == 0 ? 0 : 1);
+#if !defined(XALAN_RECURSIVE_STYLESHEET_EXECUTION)
+    theSizes.push_back(m_xobjectPtrStack.size());
+    theSizes.push_back(m_mutableNodeRefListStack.verifObjectsOnStack());
+    theSizes.push_back(m_nodesToTransformStack.size());
+    theSizes.push_back(m_processCurrentAttributeStack.size());
+    theSizes.push_back(m_executeIfStack.size());
+    theSizes.push_back(m_stringStack.verifObjectsOnStack());
+    theSizes.push_back(m_formatterToTextStack.verifObjectsOnStack());
+    theSizes.push_back(m_skipElementAttributesStack.size());
+    theSizes.push_back(m_formatterToSourceTreeStack.verifObjectsOnStack());
+    theSizes.push_back(m_paramsVectorStack.size());
+    theSizes.push_back(m_elementInvokerStack.size());
+    theSizes.push_back(m_useAttributeSetIndexesStack.size());
+#endif
+
+    m_variablesStack.verifSnapshot(theSizes);
+
+    m_xpathExecutionContextDefault.verifSnapshot(theSizes);
+
+    if (m_xsltProcessor != 0)
+    {
+        m_xsltProcessor->verifSnapshot(theSizes);
+    }
+}
+#endif
+
+
 XalanNode*
 StylesheetExecutionContextDefault::getCurrentNode() const
 {
